@@ -743,9 +743,9 @@ def token_domain(ctx):
             continue
         if tok in allowed_consts or tok == 'mio::Token(0)':
             continue
-        m = re.match(r'^mio::Token\(\((.+) as usize\)\)$', tok)
+        m = re.match(r'^mio::Token\((\((.+) as usize\)|[A-Za-z_]\w*)\)$', tok)
         if m:
-            continue
+            continue  # Token(id as usize) / Token(usize::from(id)): a channel id
         return False, 'registration with token %s in %s' % (tok, p)
     import paths as P
     rows = P.table(ctx, 'io_loop::IoLoop::handle_steady_event', ['self', 'stream', 'state', 'event'])
@@ -797,7 +797,7 @@ def token_values(ctx):
 
 
 def token_bound_is_u16_max(ctx, s):
-    if s in ('(u16::MAX as usize)', '65535', '(65535 as usize)'):
+    if s in ('u16::MAX', '(u16::MAX as usize)', '65535', '(65535 as usize)'):
         return True
     c = ctx.consts.get(s)
     return c is not None and c.get('bits') is not None and int(c['bits']) == 0xFFFF
